@@ -323,6 +323,7 @@ def i_EXTR(i, fmap):
     fmap[pc] = fmap[pc] + i.length
     dst, op1, op2, lsb = i.operands
     concat = composer([fmap(op2), fmap(op1)])
+    lsb = lsb.value
     result = concat[lsb : lsb + i.datasize]
     fmap[dst] = result
 
